@@ -34,6 +34,13 @@ def lih_uhf():
 
 
 @cached
+def n_doublet_mol():
+    """7 electrons, (nup, ndown) = (4, 3): unequal spin counts with at least three electrons of each spin (no SCF: used for Jastrow factors only)"""
+    from pyscf import gto
+    return gto.M(atom="N 0. 0. 0.", basis="sto-3g", unit="bohr", spin=1, verbose=0)
+
+
+@cached
 def h2_casci():
     from pyscf import gto, scf, mcscf
     mol = gto.M(atom="H 0. 0. 0.; H 0. 0. 2.4", basis="cc-pvdz", unit="bohr", verbose=0)
@@ -153,6 +160,10 @@ def obc_wfs(rng, which="all", jax=True):
         out.append(("gps", mol, randomize(generate_gps_jastrow(mol)[0], rng)))
         out.append(("slater*gps", mol, MultiplyWF(Slater(mol, mf), randomize(generate_gps_jastrow(mol)[0], rng))))
         out.append(("slater*jastrow*geminal", mol, MultiplyWF(Slater(mol, mf), jast(), randomize(GeminalJastrow(mol), rng))))
+        # unequal spin counts with >= 3 electrons per spin: the packed pair indices of the same-spin channels of the three-body Jastrow differ
+        # between up-up and down-down only there (added after a seeded change copied the up-up offset into the down-down loop of pgradient)
+        moln = n_doublet_mol()
+        out.append(("jastrow*threebody_n_doublet(4,3)", moln, MultiplyWF(jast(moln), j3(moln))))
         molu, mfu = lih_uhf()
         out.append(("slater_uhf_triplet*jastrow", molu, MultiplyWF(Slater(molu, mfu), jast(molu))))
         molc, mfc, mc = h2_casci()
@@ -184,7 +195,7 @@ def pbc_wfs(rng, which="all"):
     S1 = np.ones((3, 3)) - 2 * np.eye(3)
     sup = pyq.get_supercell(cell, S=S1)
     out.append(("pbc_slater_twist0*jastrow", sup, MultiplyWF(Slater(sup, mf, twist=0, eval_gto_precision=1e-6), randomize(generate_jastrow(sup)[0], rng))))
-    if which == "all":
+    if which in ("all", "all+gps"):
         cellt, mft = h_pbc_tri()
         supt = pyq.get_supercell(cellt, S=np.array([[1, 1, 0], [-1, 1, 0], [0, 0, 1]]))
         out.append(("pbc_triclinic_slater_twist1*jastrow", supt, MultiplyWF(Slater(supt, mft, twist=1, eval_gto_precision=1e-6), randomize(generate_jastrow(supt)[0], rng))))
@@ -196,6 +207,15 @@ def pbc_wfs(rng, which="all"):
         a, b = default_jastrow_basis(sup2)
         out.append(("pbc_slater_complex_twist*jastrow*threebody", sup2,
                     MultiplyWF(Slater(sup2, mf, twist=1, eval_gto_precision=1e-6), randomize(generate_jastrow(sup2)[0], rng), randomize(ThreeBodyJastrow(sup2, a, b), rng, scale=0.1))))
+    if which == "all+gps":
+        # ratio checks only (C03): the Gaussian-process Jastrow on minimal-image distances is a well-defined function of the walker in a periodic
+        # cell (not a smooth one, so it is not offered to the derivative checks).  Added after a seeded change dropped the minimal image in
+        # the batched auxiliary-position path of GPSJastrow only.
+        from pyqmc.wftools import generate_gps_jastrow
+        cellt, mft = h_pbc_tri()
+        supt = pyq.get_supercell(cellt, S=np.array([[1, 1, 0], [-1, 1, 0], [0, 0, 1]]))
+        out.append(("pbc_triclinic_gps", supt, randomize(generate_gps_jastrow(supt)[0], rng)))
+        out.append(("pbc_triclinic_slater_twist1*gps", supt, MultiplyWF(Slater(supt, mft, twist=1, eval_gto_precision=1e-6), randomize(generate_gps_jastrow(supt)[0], rng))))
     return out
 
 
